@@ -88,13 +88,15 @@ def run(ctx):
     ct = ClassifierTable(p)
 
     # ---- whole-region replacements
-    from .c02 import wholesale_sites
+    from .c02 import moved_entry, wholesale_sites
 
     fix_roots = [m for ci in p.classes.values() for name, m in ci.methods.items() if name == "_fix_violation" and ci.key != "vsg.rule:Rule"]
     n_whole = 0
-    for fi, n, kk, guards in wholesale_sites(p, cg.reachable(fix_roots)):
+    wsites = wholesale_sites(p, cg.reachable(fix_roots))
+    wkeys = {k for _, _, k, _ in wsites}
+    for fi, n, kk, guards in wsites:
         n_whole += 1
-        ent = r.tabled("C01.wholesale", kk)
+        ent = r.tabled("C01.wholesale", kk) or moved_entry(r, "C01.wholesale", kk, wkeys, p)
         if ent:
             r.ok("C01.wholesale", kk, ent.get("reason", "")[:110])
         else:
